@@ -1394,6 +1394,43 @@ theorem C16_between_crossings_one_cell (H : GenPos g eps a b) {s1 s2 : Rat} (h1 
 
 end
 
+/-! ## the identifier-indexed vector (`intersection_metadata`, dumped by the hook `verif::intersection_data`) -/
+
+/-- **C16, identifiers**: the intersections indexed by their identifiers are the intersections of the
+    vertex chain, in the same order or (two backward straight cases) in the opposite order -/
+theorem C16_metadata_order (g : GGrid) (eps : Rat) (a b : Pt) :
+    crossingsMeta g eps a b = crossingsOf g eps a b ∨
+    crossingsMeta g eps a b = (crossingsOf g eps a b).reverse := by
+  unfold crossingsMeta
+  simp only
+  split
+  · exact Or.inr rfl
+  · exact Or.inl rfl
+
+theorem C16_metadata_same_intersections (g : GGrid) (eps : Rat) (a b : Pt) :
+    (∀ c, c ∈ crossingsMeta g eps a b ↔ c ∈ crossingsOf g eps a b) ∧
+    (crossingsMeta g eps a b).length = (crossingsOf g eps a b).length := by
+  rcases C16_metadata_order g eps a b with e | e <;> rw [e] <;> simp
+
+/-- **C16, every identifier of the segment receives a genuine crossing** and every crossing receives
+    one: what the kernel stores under the `|Δi| + |Δj|` identifiers of a segment in general position
+    are exactly the crossings of the segment with the grid, each once -/
+theorem C16_metadata_spec {g : GGrid} {eps : Rat} {a b : Pt} (H : GenPos g eps a b) :
+    (∀ c, c ∈ crossingsMeta g eps a b → IsCrossing g a b c.s ∧ 0 < c.t ∧ c.t < 1) ∧
+    (∀ s, IsCrossing g a b s → ∃ c, c ∈ crossingsMeta g eps a b ∧ c.s = s) ∧
+    (crossingsMeta g eps a b).length =
+      (((cellOf g b).1 : Int) - ((cellOf g a).1 : Int)).natAbs +
+      (((cellOf g b).2 : Int) - ((cellOf g a).2 : Int)).natAbs := by
+  obtain ⟨hm, hl⟩ := C16_metadata_same_intersections g eps a b
+  refine ⟨?_, ?_, by rw [hl]; exact C16_crossings_count H⟩
+  · intro c hc
+    have hc' := (hm c).1 hc
+    obtain ⟨_, _, t0, t1, _⟩ := C16_crossings_sound H hc'
+    exact ⟨C16_crossings_on_grid_lines H hc', t0, t1⟩
+  · intro s hs
+    obtain ⟨c, hc, e⟩ := C16_crossings_complete H hs
+    exact ⟨c, (hm c).2 hc, e⟩
+
 /-! ## non-vacuity -/
 
 /-- unit grid at the origin, 3 cells per row -/
@@ -1405,6 +1442,9 @@ example : (crossingsOf exGrid epsF64 (1/4, 1/4) (9/4, 5/4)).map (·.dart) = [2, 
 example : (crossingsOf exGrid epsF64 (9/4, 5/4) (1/4, 1/4)).map (·.dart) = [24, 17, 8] := by decide +kernel
 example : (crossingsOf exGrid epsF64 (1/4, 1/4) (9/4, 5/4)).map (·.s) = [3/8, 3/4, 7/8] := by decide +kernel
 example : crossingsOf exGrid epsF64 (1/4, 1/4) (3/4, 1/2) = [] := by decide +kernel
+-- a backward row: identifiers run against the segment
+example : (crossingsOf exGrid epsF64 (11/4, 1/4) (1/4, 1/2)).map (·.dart) = [12, 8] ∧
+    (crossingsMeta exGrid epsF64 (11/4, 1/4) (1/4, 1/2)).map (·.dart) = [8, 12] := by decide +kernel
 
 /-- the first segment is in general position (for `eps = 1/8`): one crossing, of the line `x = 1`, at
     `s = 1/2`, five eighths up the side -/
